@@ -444,6 +444,8 @@ def _ite_util(kind):
 def run_ite_util(oid, params, tier):
     tree = params["tree"]
     kind = oid.split(":")[0]
+    if kind.startswith("meta/"):
+        kind = kind[5:]
     zc = _zconsts([tree])
     want_holder = {}
 
